@@ -734,17 +734,18 @@ func (w *PointsWriter) updateShardGroupAndShardKey(
 		sameSg = false
 	}
 
-	if !sameSg || !wh.sameMst {
-		if len(di.ShardKey.ShardKey) > 0 {
-			*si = &di.ShardKey
-		} else {
-			*si = mi.GetShardKey(sg.ID)
-		}
+	// The shard key depends on the measurement and the shard group of this very row. It is looked up for every row:
+	// a row that was dropped after its measurement had been resolved never got here, so "same measurement as the
+	// previous row" does not imply that the remembered key belongs to this measurement.
+	if len(di.ShardKey.ShardKey) > 0 {
+		*si = &di.ShardKey
+	} else {
+		*si = mi.GetShardKey(sg.ID)
+	}
 
-		if *si == nil {
-			err = errno.NewError(errno.WriteNoShardKey)
-			return
-		}
+	if *si == nil {
+		err = errno.NewError(errno.WriteNoShardKey)
+		return
 	}
 
 	if !reuseShardKey {
